@@ -606,30 +606,45 @@ Inductive run_result :=
 
 Definition fc_linear_fuel (g : list (key * key)) : nat := (2 * length g + 3)%nat.
 
-Fixpoint run_loop (fuel : nat) (pfuel : nat) (root : key) (s : istate) (sched : list (list key)) : run_result :=
+(* One element of a schedule: the tasks whose complete() arrives at the top of the iteration (hook point 0), and the tasks
+   whose complete() arrives while the engine is blocked at the end of that iteration (only used if it blocks).
+   [marks] (ghost): per iteration the log length at its top, the log length after its queue loops, and its status. *)
+Definition sched_item := (list key * list key)%type.
+Definition mark := (nat * nat * status)%type.
+
+Fixpoint run_loop (fuel : nat) (pfuel : nat) (root : key) (s : istate) (sched : list sched_item) (marks : list mark)
+  : run_result * list mark :=
   match fuel with
-  | O => ROutOfFuel s
+  | O => (ROutOfFuel s, rev marks)
   | S f =>
-    let comps := match sched with [] => [] | c :: _ => c end in
+    let top := match sched with [] => [] | c :: _ => fst c end in
+    let blk := match sched with [] => [] | c :: _ => snd c end in
     let sched' := match sched with [] => [] | _ :: t => t end in
-    match loop_iteration pfuel root s comps with
-    | (s', StWork) => run_loop f pfuel root s' sched'
-    | (s', StWait) => match sched' with [] => RBlocked s' | _ :: _ => run_loop f pfuel root s' sched' end
-    | (s', StStall) =>
-      let g := wait_graph s' in
-      let c := FindCycle.findcycle_names g root (fc_linear_fuel g) in
-      let s'' := match c with FindCycle.FcDone p => iemit s' (ECycleReported p) | FindCycle.FcOutOfFuel => s' end in
-      RCycle (cancel_remaining s'') g c
-    | (s', StDone) => RDone s'
+    match loop_iteration pfuel root s top with
+    | (s', st) =>
+      let marks := (length (is_log s), length (is_log s'), st) :: marks in
+      match st with
+      | StWork => run_loop f pfuel root s' sched' marks
+      | StWait =>
+        let s'' := fold_left task_finish blk s' in
+        if negb (nonnil (is_fintasks s'')) && negb (nonnil sched') then (RBlocked s'', rev marks)
+        else run_loop f pfuel root s'' sched' marks
+      | StStall =>
+        let g := wait_graph s' in
+        let c := FindCycle.findcycle_names g root (fc_linear_fuel g) in
+        let s'' := match c with FindCycle.FcDone p => iemit s' (ECycleReported p) | FindCycle.FcOutOfFuel => s' end in
+        (RCycle (cancel_remaining s'') g c, rev marks)
+      | StDone => (RDone s', rev marks)
+      end
     end
   end.
 
 (* executeTasks: the dummy input request for the key to build, then the loop *)
-Definition run_build (fuel pfuel : nat) (root : key) (s : istate) (sched : list (list key)) : run_result :=
+Definition run_build (fuel pfuel : nat) (root : key) (s : istate) (sched : list sched_item) : run_result * list mark :=
   let s := upd_fininreq s [] in
   let s := touch s root in
   let s := upd_inreq s (is_inreq s ++ [mkIReq None 0%nat root false false]) in
-  run_loop fuel pfuel root s sched.
+  run_loop fuel pfuel root s sched [].
 
 (* BuildEngine::build: ++currentEpoch, executeTasks, setCurrentIteration *)
 Definition bump (s : istate) : istate :=
@@ -642,13 +657,12 @@ Definition commit (s : istate) : istate :=
 Definition final_state (r : run_result) : istate :=
   match r with RDone s | RCycle s _ _ | RBlocked s | ROutOfFuel s => s end.
 
-Definition ibuild (fuel pfuel : nat) (s : istate) (root : key) (sched : list (list key)) : run_result :=
+Definition ibuild (fuel pfuel : nat) (s : istate) (root : key) (sched : list sched_item) : run_result * list mark :=
   let s0 := iemit (bump s) (EBuildStart root) in
   match run_build fuel pfuel root s0 sched with
-  | RDone s1 => RDone (iemit (commit s1) (EResult (res_value (res_of s1 root)) false))
-  | RCycle s1 g c => RCycle (iemit (commit s1) (EResult None true)) g c
-  | RBlocked s1 => RBlocked s1
-  | ROutOfFuel s1 => ROutOfFuel s1
+  | (RDone s1, m) => (RDone (iemit (commit s1) (EResult (res_value (res_of s1 root)) false)), m)
+  | (RCycle s1 g c, m) => (RCycle (iemit (commit s1) (EResult None true)) g c, m)
+  | (other, m) => (other, m)
   end.
 
 (* dumpGraphToFile looks up (and thereby loads) every dependency of every rule it prints *)
